@@ -1020,6 +1020,16 @@ def install(reg):
             r = elementwise(f, a, tmp)
             r.c16_cx = is_cx(a)
             return like(r, None, interp.ctx)
+        if is_cx(a) or is_cx(b):
+            # complex division (SymArr.__truediv__ is real-only)
+            def fdiv(x, y):
+                if isinstance(x, Cx) or isinstance(y, Cx):
+                    return Cx.of(x) / Cx.of(y)
+                return V._realdiv(x, y)
+
+            r = elementwise(fdiv, Cx.of(a) if isinstance(a, complex) else a, Cx.of(b) if isinstance(b, complex) else b)
+            r.c16_cx = True
+            return like(r, None, interp.ctx)
         return NotImplemented
 
     reg.binop_models[(SymArr, operator.truediv)] = arr_div
